@@ -61,7 +61,7 @@ def check_cell(cfg, sh, nl, path, seed, part, prior, dec, joker_factory):
             orig = np.random.Generator
             np.random.Generator = _RecGen
             try:
-                res = joker.rejection_sample(data, lib, n_linear_samples=nl, n_batches=2)
+                res = joker.rejection_sample(data, lib, n_linear_samples=nl, n_batches=3)
             finally:
                 np.random.Generator = orig
             recs = list(_REC_LOG)
@@ -94,6 +94,23 @@ def check_cell(cfg, sh, nl, path, seed, part, prior, dec, joker_factory):
         if len(recs) != len(got_rows) or len(P) != nl * len(got_rows):
             part.violation(case0, "number of multivariate_normal calls != number of accepted nonlinear samples (one call of size n_linear per sample expected)",
                            expected=len(got_rows), observed=len(recs))
+            return
+        # draws of different rows / batches must come from different deviates: equal Mahalanobis radii (x-a)^T A^-1 (x-a)
+        # of two draws mean both were generated from the same standard-normal numbers (a re-used random stream)
+        radii = []
+        for rec in recs:
+            _, mean, cov, size, draws = rec
+            if np.all(np.isfinite(cov)) and np.all(np.isfinite(mean)):
+                try:
+                    Ci = np.linalg.inv(cov)
+                    for d in np.atleast_2d(draws):
+                        radii.append(float((d - mean) @ Ci @ (d - mean)))
+                except np.linalg.LinAlgError:
+                    pass
+        rr = np.sort(np.array(radii))
+        if len(rr) > 1 and np.any(np.diff(rr) <= 1e-9 * np.maximum(rr[1:], 1e-300)):
+            part.violation(dict(case0), "two linear-parameter draws have identical Mahalanobis radii: they were generated from the same random "
+                           "deviates (batches / rows sharing one random stream), not independently", observed=rr[:8].tolist())
             return
         for k, (i, rec) in enumerate(zip(got_rows, recs)):
             case = dict(case0, theta=theta[i].tolist())
